@@ -2,8 +2,8 @@ import Aqua.Run.SizeLimits
 /-
 Replica of `air/src/runner.rs: execute_air_impl` and `air/src/farewell_step/outcome.rs` as a cascade
 of `farewell_if_fail!`.  The stages are fields of `Stages`, so that outcome-shape theorems (C02, C21,
-C22) are proved once for every instantiation; `Aqua.Run.Concrete` instantiates them with the model of
-the real stages.
+C22) are proved once for every instantiation (no concrete instantiation with the models of the real
+stages was built: the harness drives the staged model with the stage results of the real run).
 -/
 namespace Aqua.Run
 
